@@ -59,27 +59,27 @@ def rule_a(ctx):
             ctx.ok('a', 'take_flows_to_remove_in_flight', r, c.where(), 'class %s; sink at line(s) %s' % (cls, [s.line for s in sinks]))
     ctx.floor('a', 'producers', n, 7)
     # forgotten tail: PacketSpace::sent's result flows to remove_in_flight in PathData::sent
-    ps_sent = F.fn('PathData::sent')
+    ps_sent = ctx.pfn('PathData::sent')
     for c in ps_sent.calls_to('PacketSpace::sent'):
         sinks, path = flows_always(F, c, ['PathData::remove_in_flight'])
         ctx.check(bool(sinks) and path is None, 'a', 'forgotten_tail_removed_from_in_flight', ps_sent, c.where(),
                   'forgotten packet returned by PacketSpace::sent is removed from in-flight', 'forgotten packet is not removed from in-flight counters')
     # on_packet_acked must hand its parameter to remove_in_flight on every path
-    opa = F.fn('Connection::on_packet_acked')
+    opa = ctx.pfn('Connection::on_packet_acked')
     ok = must_call(F, opa, ['Connection::remove_in_flight'], depth=0)
     cs = opa.calls_to('Connection::remove_in_flight')
     flows = [c for c in cs if D.has_param(arg_desc(F, c, 1), name='info')]
     ctx.check(ok and bool(flows), 'a', 'on_packet_acked_removes_in_flight', opa, opa.where(),
               'on_packet_acked(info) must-calls remove_in_flight(&info)', 'on_packet_acked no longer always calls remove_in_flight(&info)')
     # Connection::remove_in_flight reaches PathData::remove_in_flight for path and prev_path
-    rif = F.fn('Connection::remove_in_flight')
+    rif = ctx.pfn('Connection::remove_in_flight')
     ctx.check(may_reach(F, rif, ['PathData::remove_in_flight'], 1), 'a', 'conn_remove_reaches_path_remove', rif, rif.where(),
               'delegates to PathData::remove_in_flight', 'no longer delegates to PathData::remove_in_flight')
     who_may_call(ctx, 'a', 'inflight_remove_single_caller', ['InFlight::remove'], ['PathData::remove_in_flight'], floor=1)
     who_may_call(ctx, 'a', 'inflight_insert_single_caller', ['InFlight::insert'], ['PathData::sent'], floor=1)
     who_may_call(ctx, 'a', 'path_sent_single_caller', ['PathData::sent'], ['PacketBuilder::finish_and_track'], floor=1)
     # generation match guard in PathData::remove_in_flight: InFlight::remove only on generation equality
-    prf = F.fn('PathData::remove_in_flight')
+    prf = ctx.pfn('PathData::remove_in_flight')
     brs = [b for b in branches(F, prf) if relation_on(b.desc, True) and desc_has(b.desc, fields=['path_generation', 'generation'])]
     okg = False
     for br in brs:
@@ -111,7 +111,7 @@ def gate_branch(ctx, pt):
 
 def rule_b(ctx):
     F = ctx.facts
-    pt = F.fn('Connection::poll_transmit')
+    pt = ctx.pfn('Connection::poll_transmit')
     gs = gate_branch(ctx, pt)
     if not ctx.check(len(gs) == 1, 'b', 'congestion_gate_present', pt, pt.where(), 'one gate comparison found', 'expected exactly one comparison of in_flight.bytes+bytes_to_send with Controller::window(), found %d' % len(gs)):
         return None
@@ -165,7 +165,7 @@ def loop_head(body, bb):
 
 def rule_c(ctx, gate):
     F = ctx.facts
-    pt = F.fn('Connection::poll_transmit')
+    pt = ctx.pfn('Connection::poll_transmit')
     g, blocked_t, pass_t, head = gate
     d = describer(F, pt)
     # exemption branch: the gate is entered only if ack_eliciting && !close && loss_probes == 0
@@ -222,7 +222,7 @@ def _is_add_store(d, rv, i, j):
 
 def rule_d(ctx):
     F = ctx.facts
-    lt = F.fn('Connection::on_loss_detection_timeout')
+    lt = ctx.pfn('Connection::on_loss_detection_timeout')
     ws = [w for w in field_writes(F, 'PacketSpace', 'loss_probes', crate='quinn_proto') if w.kind in ('assign', 'callresult')]
     roots_ = sorted({F.root_of(w.body).short for w in ws})
     ctx.check(set(roots_) <= {'Connection::on_loss_detection_timeout', 'Connection::poll_transmit'}, 'd', 'loss_probes_writers', 'PacketSpace.loss_probes', '',
@@ -282,15 +282,15 @@ def rule_e(ctx):
                 ctx.check(ok, 'e', 'window_final_store_has_floor', b, w.where(), '%s: %s' % (why, D.render(val)[:160]),
                           'final store to %s.window is not a floor idiom (%s): %s' % (ty, FLOOR_IDIOMS, D.render(val)[:300]))
         ctx.floor('e', ty + '_final_stores', n, 3)
-        mw = F.fn('<%s as Controller>::window' % ty) if F.try_fn('<%s as Controller>::window' % ty) else None
+        mw = ctx.pfn('<%s as Controller>::window' % ty) if F.try_fn('<%s as Controller>::window' % ty) else None
     # minimum_window = 2 * current_mtu
     for ty in ('NewReno', 'Cubic'):
-        mw = F.fn('%s::minimum_window' % ty)
+        mw = ctx.pfn('%s::minimum_window' % ty)
         rd = ret_descs(F, mw)
         ok = all(x[0] == 'bin' and x[1] == 'Mul' and D.has_const(x, 2) and D.has_field(x, 'current_mtu') for _, x in rd)
         ctx.check(ok and rd, 'e', 'minimum_window_is_2_mtu', mw, mw.where(), '2 * current_mtu', 'minimum_window() is no longer 2*current_mtu: %s' % [D.render(x) for _, x in rd])
     # BBR
-    bbr_cc = F.fn('Bbr::calculate_cwnd')
+    bbr_cc = ctx.pfn('Bbr::calculate_cwnd')
     stores = [w for w in window_stores(ctx, 'Bbr', 'cwnd') if w.body.id == bbr_cc.id]
     dd = describer(F, bbr_cc)
     # the function must end, on every path that stored cwnd, with a store of min_cwnd guarded by cwnd < min_cwnd OR a store >= min_cwnd; we check:
@@ -314,19 +314,19 @@ def rule_e(ctx):
     ctx.check(okf, 'e', 'bbr_calculate_cwnd_ends_with_floor', bbr_cc, bbr_cc.where(), 'every cwnd store is followed by `if cwnd < min_cwnd {cwnd = min_cwnd}`',
               'Bbr::calculate_cwnd no longer ends with the min_cwnd floor on every path')
     for fn, what in (('<Bbr as Controller>::on_mtu_update', 'max(cwnd,min_cwnd)'),):
-        b = F.fn(fn)
+        b = ctx.pfn(fn)
         ws = [w for w in window_stores(ctx, 'Bbr', 'cwnd') if w.body.id == b.id]
         d2 = describer(F, b)
         ok = bool(ws) and all(D.has_call(d2.rvalue(w.rv, w.bb, w.idx, 0) if w.rv else d2.call_desc(w.call, 0), 'Ord::max') and
                               D.has_field(d2.rvalue(w.rv, w.bb, w.idx, 0) if w.rv else d2.call_desc(w.call, 0), 'min_cwnd') for w in ws)
         ctx.check(ok, 'e', 'bbr_on_mtu_update_floor', b, b.where(), what, 'Bbr::on_mtu_update cwnd store lost its max(.., min_cwnd) floor')
-    cmw = F.fn('bbr::calculate_min_window')
+    cmw = ctx.pfn('bbr::calculate_min_window')
     rd = ret_descs(F, cmw)
     ctx.check(rd and all(x[0] == 'bin' and x[1] == 'Mul' and D.has_const(x, 4) for _, x in rd), 'e', 'bbr_min_window_is_4_mtu', cmw, cmw.where(),
               '4 * mtu', 'bbr calculate_min_window is no longer 4*mtu')
     # window() of the three controllers returns the stored field (so the floor idioms bound what is reported)
     for ty, fld in (('NewReno', 'window'), ('Cubic', 'window')):
-        b = F.fn('<%s as Controller>::window' % ty)
+        b = ctx.pfn('<%s as Controller>::window' % ty)
         rd = ret_descs(F, b)
         ctx.check(rd and all(x[0] == 'field' and x[2] == fld for _, x in rd), 'e', 'window_reports_stored_field', b, b.where(), 'returns self.%s' % fld,
                   'Controller::window() no longer returns the floored field')
@@ -362,7 +362,7 @@ def floor_idiom(ctx, b, val, ty, adt):
 
 def rule_f(ctx):
     F = ctx.facts
-    dl = F.fn('Connection::detect_lost_packets')
+    dl = ctx.pfn('Connection::detect_lost_packets')
     # a packet number is pushed to lost_packets only on packet_too_old || largest_acked >= packet + packet_threshold
     pushes = [c for c in dl.calls_to('Vec::push') if D.render(arg_desc(F, c, 0)).find('lost_packets') >= 0 or True]
     d = describer(F, dl)
@@ -402,7 +402,7 @@ def rule_f(ctx):
             okr = True
     ctx.check(okr, 'f', 'loss_scan_range_below_largest_acked', dl, dl.where(), 'range(0..largest_acked_packet)', 'loss scan no longer restricted to packets below the largest acked')
     # on_ack_received sanity
-    oa = F.fn('Connection::on_ack_received')
+    oa = ctx.pfn('Connection::on_ack_received')
     g = [br for br in branches(F, oa) if relation_on(br.desc, True) and desc_has(br.desc, fields=['largest', 'next_packet_number'])]
     okg = False
     for br in g:
